@@ -52,8 +52,7 @@ def run_shard(pid, tier, seed, i, n, partial):
     try:
         mod.run(ctx)
     except Exception as e:  # harness failure inside a shard is inconclusive, never "held"
-        import traceback
-        ctx.inconc(f'shard {i}/{n} crashed: {type(e).__name__}: {e} :: {traceback.format_exc()[-800:]}')
+        _crash(ctx, e)
     _reach_off(ctx, rc)
     Path(partial).write_text(json.dumps(ctx.to_partial(), ensure_ascii=False, default=str), encoding='utf-8')
     return 0
@@ -74,6 +73,21 @@ def ensure_hashseed(want, argv):
     env = dict(os.environ, PYTHONHASHSEED=str(want))
     sys.stdout.flush()
     os.execve(sys.executable, [sys.executable, '-m', 'kpverif.runner'] + list(argv), env)
+
+
+def _crash(ctx, e):
+    """The driver stopped on an exception.  When the exception was RAISED INSIDE kernpy (innermost frame in the library under test) by a
+    call the driver did not expect to fail - on the unchanged tree none does - the library refused something the workload considers
+    legal: reported as a violation with the traceback, and the run is inconclusive as well (the rest of the workload did not run)."""
+    import traceback
+    tb = traceback.extract_tb(e.__traceback__)
+    inner = tb[-1].filename if tb else ''
+    txt = traceback.format_exc()[-1200:]
+    if '/kernpy/' in inner and '/kpverif/' not in inner:
+        ctx.violation('library-raised-in-unguarded-call', f'{type(e).__name__}: {e} (raised in {inner.split("/kernpy/")[-1]}:{tb[-1].lineno}, '
+                      f'called from {next((f.filename.split("/")[-1] + ":" + str(f.lineno) for f in reversed(tb) if "/kpverif/" in f.filename), "?")})',
+                      {'traceback': txt})
+    ctx.inconc(f'check crashed: {type(e).__name__}: {e} :: {txt}')
 
 
 def main(argv=None):
@@ -116,8 +130,7 @@ def main(argv=None):
         try:
             mod.run(ctx)
         except Exception as e:
-            import traceback
-            ctx.inconc(f'check crashed: {type(e).__name__}: {e} :: {traceback.format_exc()[-1200:]}')
+            _crash(ctx, e)
         _reach_off(ctx, rc)
         return ctx.finish()
 
